@@ -135,6 +135,17 @@ def member_extents(F, S):
         out.append(ok("R-MUSTCALL", VOL + "::GetSectionHeader#tag", fn.loc(fn.body), fn.qn, "the block tag is compared with 'VBLK' on every returning path", "refusal dominates the return"))
     else:
         out.append(bad("R-MUSTCALL", VOL + "::GetSectionHeader#tag", fn.loc(fn.body), fn.qn, "the block tag is compared with 'VBLK' on every returning path", "no such refusal on some returning path"))
+    # optional guards on the member path must be exact when present: the block header [off, off + 8) lies in the file
+    # iff off + 8 <= file size; a slice [s, s + n) lies in its source iff s + n <= source length
+    gs = F.fn(VOL + "::GetSectionHeader", nparams=1)
+    off = ("mem", ("idx", ("mem", ("this",), "m_IndexEntries"), idx_t(gs)), "dataBlockOffset")
+    for sz in (("mem", ("this",), "m_ArchiveFileSize"), ("call", NS + "FileReader::Length", ("mem", ("this",), "archiveFileReader"), ())):
+        out += r_guard_exact(F, Engine(F, S), gs, [(("op", "+", off, ("const", 8)), sz)], optional=True)
+    SR = NS + "SliceReader<OP2Utility::Stream::FileReader>"
+    ini = F.fn(SR + "::Initialize", nparams=0)
+    inv_slice, _ = class_invariants(F, S, SR)
+    out += r_guard_exact(F, Engine(F, S), ini, [(("op", "+", ("mem", ("this",), "startingOffset"), ("mem", ("this",), "sliceLength")),
+                                                   ("call", NS + "FileReader::Length", ("mem", ("this",), "wrappedStream"), ()))], invariants=inv_slice)
     return out, n
 
 
@@ -156,11 +167,11 @@ def per_member_verified(F, S):
         idx = ("var", fn.params[0]["n"], fn.params[0]["d"])
         want = ("called", ARC + "::VerifyIndexInBounds", (idx,))
         inst = "%s::%s#verify-index" % (cls, name)
-        req = "VerifyIndexInBounds(index) is passed on every returning path"
-        if ex is not None and want in ex:
+        req = "index < m_Count is established on every returning path (VerifyIndexInBounds(index) or an equivalent refusal)"
+        if ex is not None and (want in ex or prove_le(set(ex), idx, ("mem", ("this",), "m_Count"), strict=True)):
             out.append(ok("R-MUSTCALL", inst, fn.loc(fn.body), fn.qn, req, "on every path to the normal exit"))
         else:
-            out.append(bad("R-MUSTCALL", inst, fn.loc(fn.body), fn.qn, req, "a returning path does not pass it"))
+            out.append(bad("R-MUSTCALL", inst, fn.loc(fn.body), fn.qn, req, "a returning path does not establish it"))
     return out, n
 
 
